@@ -224,6 +224,35 @@ def run_ngram_stage(case):
     return res(v, nt=(tuple(case["docs"]), repr(kw)) if len(gwant) < len(allg) and gwant else None, out="grams=%d" % len(gwant))
 
 
+WORDS = ["foo", "foot", "food", "bar", "barn", "rebar", "ab", "a", "fo", "bar\n"]
+REGEXES = ["foo|bar", "(foo|bar)", "fo+", "ba.", ".*ar", "a|ab", "foo", "fo|food", "[a-f]+"]
+
+
+def run_regex(case):
+    """excluded_token_regex is a FULL match on the token: multi-character tokens, alternation, prefixes, a trailing newline"""
+    from vectorizers.preprocessing import preprocess_token_sequences
+    corpus = [list(d) for d in case["docs"]]
+    rx = case["regex"]
+    toks = sorted({t for d in corpus for t in d})
+    want = [t for t in toks if not re.fullmatch(rx, t)]
+    try:
+        _, d, _, _ = preprocess_token_sequences(corpus, excluded_token_regex=rx)
+    except Exception as e:
+        return res([viol("regex-exception:%s" % type(e).__name__, "raised %r" % (e,))])
+    v = []
+    exp = {t: i for i, t in enumerate(want)}
+    if dict(d) != exp:
+        v.append(viol("regex-fullmatch", "excluded_token_regex=%r on tokens %s keeps %r, expected %r" % (rx, toks, dict(d), exp)))
+    return res(v, nt=(rx, tuple(toks)) if 0 < len(want) < len(toks) else None, out="kept=%d" % len(want))
+
+
+def _regex_cases(tier):
+    k = 3 if tier == "quick" else 4
+    for rx in REGEXES:
+        for combo in itertools.combinations(WORDS, k):
+            yield {"docs": [list(combo[:2]), list(combo[1:]) + [combo[0]]], "regex": rx}
+
+
 def subchecks(tier, seed):
     nmax = 700 if tier == "quick" else 2000
     dmax = 60 if tier == "quick" else 120
@@ -254,6 +283,9 @@ def subchecks(tier, seed):
         Sub("corpora_lattice", "I", corp, run_corpus, total=len(SETTINGS) * len(docs3),
             describe="ordered triples over Sigma_3<=%d x %d pruning settings; exact reference; all document permutations with token reversal" % (2 if tier == "quick" else 3, len(SETTINGS)),
             nontrivial_rule="at least one token pruned and one kept"),
+        Sub("regex_word_tokens", "I", (lambda: _regex_cases(tier)), run_regex, total=sum(1 for _ in _regex_cases(tier)),
+            describe="all 3(4)-subsets of a pool of multi-character tokens (prefix families foo/foot/food, bar/barn/rebar, a trailing newline) x 9 regexes incl. top-level alternation; reference = re.fullmatch",
+            nontrivial_rule="some but not all tokens excluded"),
         Sub("supplied_dictionary", "I", supplied, run_supplied, total=sum(1 for _ in supplied()),
             describe="pairs over {a,b,z}<=2 x 4 supplied dictionaries x mask{None,M}", nontrivial_rule="every case"),
         Sub("ngram_second_stage", "I", ngr, run_ngram_stage, total=sum(1 for _ in ngr()),
